@@ -33,12 +33,20 @@ Coherent == \A o1, o2 \in Ops : (o1.op = o2.op /\ o1.l = o2.l /\ o1.r = o2.r) =>
 GenBuildClauses(e) ==
     << Cl("C11.generated_items_compile", TRUE, e.verdict = "ok") >>
 
+\* Derivations declared in the SOURCES that the hand-written catalogue does not know (a new derived quantity):
+\* the catalogue is a lower bound, and what such a declaration makes type-check is "related by a declared
+\* derivation" in the property's own words.  Reported as a note; everything the catalogue knows is still demanded.
+ExtraOps(e) == IF Has(e, "extra")
+               THEN UNION {OpsOfDv(e.extra[i].res, [op |-> e.extra[i].op, l |-> e.extra[i].l, r |-> e.extra[i].r]) : i \in DOMAIN e.extra}
+               ELSE {}
 CompileClauses(e) ==
     LET kn == e.kind = "binop" /\ TKnown(e.L) /\ TKnown(e.R)
         exp == TypeChecks(e.op, e.L, e.R) /\ (e.asc = "-" \/ e.asc = ResultType(e.op, e.L, e.R))
         accepted == e.verdict = "ok"
+        byExtra == \E o \in ExtraOps(e) : o.op = e.op /\ o.l = e.L /\ o.r = e.R
     IN << Cl("C06.known", e.kind = "binop", kn),
           Cl("C06.accepts_meaningful", kn /\ exp, accepted),
-          Cl("C06.rejects_meaningless", kn /\ ~exp /\ e.asc = "-", ~accepted),
-          Cl("C06.result_type_exact", kn /\ ~exp /\ e.asc # "-", ~accepted) >>
+          Cl("C06.rejects_meaningless", kn /\ ~exp /\ e.asc = "-" /\ ~byExtra, ~accepted),
+          Cl("C06.result_type_exact", kn /\ ~exp /\ e.asc # "-" /\ ~byExtra, ~accepted),
+          Cl("NOTE.derivation_not_in_catalogue", kn /\ ~exp /\ e.asc = "-", ~byExtra) >>
 =============================================================================
